@@ -16,10 +16,10 @@ from .terms import ABSENT, App, Const, Fin, Opaque, P, Term
 SCORE_ATTRS = ("base_score", "temporal_score", "environmental_score")
 
 
-def get_model(ctx, v):
-    key = ("objmodel", v)
+def get_model(ctx, v, map_order="table"):
+    key = ("objmodel", v) if map_order == "table" else ("objmodel_" + map_order, v)
     if key not in ctx.memo:
-        om = ObjModel(ctx, v)
+        om = ObjModel(ctx, v, map_order=map_order)
         if not om.alive:
             raise AnalysisError("E5.model", "every path through CVSS%d.__init__ raises" % v)
         ctx.memo[key] = om
